@@ -21,7 +21,7 @@ CRATES = [
     "grin", "grin_api", "grin_chain", "grin_config", "grin_core", "grin_keychain",
     "grin_p2p", "grin_pool", "grin_servers", "grin_store", "grin_util",
 ]
-KEEP = 8  # fact sets kept in the cache
+KEEP = 24  # fact sets kept in the cache
 
 
 def tree_hash(repo=REPO):
